@@ -109,3 +109,26 @@ def lexer_multi_char_ops(syn):
                         if b.get("k") == "call" and last_seg(show(b["f"])) == "just" and b["a"] and show(b["a"][0]) == p0:
                             out[lit_val(n["a"][0])] = last_seg(show(n["a"][1]))
     return mc, out
+
+
+def string_dispatch(root, var):
+    """{string literal: branch node} for a dispatch on the string `var`, whether written `if var == "a" {..} else if var == "b" {..}` or
+    `match var { "a" => .., "b" | "c" => .. }` (also on `var.as_str()` / `&*var`)."""
+    out = {}
+    names = {var, var + ".as_str()", "&*" + var, "&" + var, var + ".as_ref()"}
+    for n in walk(root):
+        if n.get("k") == "if" and n["c"].get("k") == "bin" and n["c"]["op"] == "==":
+            l, r = n["c"]["lhs"], n["c"]["rhs"]
+            if show(l) in names and isinstance(lit_val(r), str):
+                out.setdefault(lit_val(r), n["t"])
+            elif show(r) in names and isinstance(lit_val(l), str):
+                out.setdefault(lit_val(l), n["t"])
+        if n.get("k") == "match" and show(n["e"]) in names:
+            for arm in n["arms"]:
+                if arm.get("guard") is not None:
+                    continue
+                for alt in pat_alts(arm["pat"]):
+                    h = pat_head(alt)
+                    if isinstance(h, tuple) and h[0] == "lit" and isinstance(h[1], str):
+                        out.setdefault(h[1], arm["body"])
+    return out
